@@ -35,7 +35,7 @@ def histories(draw, kind):
     else:
         hp["betas"] = [draw(st.sampled_from([0.9, 0.5, 0.99, 0.1])), draw(st.sampled_from([0.999, 0.9, 0.5, 0.99]))]
         hp["eps"] = draw(st.sampled_from([1e-8, 1e-10, 1e-4, 1e-2]))
-    nparams = draw(st.integers(1, 3))
+    nparams = draw(st.sampled_from([1, 2, 2, 3, 3, 5]))
     params = []
     for _ in range(nparams + 1):           # the last one is NOT given to the optimizer
         shp = draw(gen.shapes(0, 3, 8))
@@ -46,7 +46,7 @@ def histories(draw, kind):
     steps = []
     steps.append({"k": "backward", "c": [draw(st.integers(-16, 16)) / 8.0 for _ in range(6)],
                   "mask": draw(st.sampled_from([[1, 1, 1, 1], [1, 1, 1, 1], [1, 0, 1, 1], [0, 1, 1, 0]]))})
-    for _ in range(draw(st.integers(3, 18))):
+    for _ in range(draw(st.sampled_from([3, 5, 8, 12, 18, 18, 40]))):
         k = draw(st.sampled_from(["backward", "backward", "step", "step", "step", "zero_grad"]))
         if k == "backward":
             steps.append({"k": "backward", "c": [draw(st.integers(-16, 16)) / 8.0 for _ in range(6)],
